@@ -187,6 +187,11 @@ def main(prop, tier='quick', replay=None, selftest=False, runs=None,
             print('  clause: %s' % sig)
             print('  detail: %s' % str(v.get('detail'))[:600])
             exit_code = 1
+    if os.environ.get('VERIF_VERBOSE'):
+        for sig in new_sigs:
+            print('  class %s: %d runs, e.g. seed %s: %s' % (
+                sig, len(by_sig[sig]), by_sig[sig][0][0]['seed'],
+                str(by_sig[sig][0][1].get('detail'))[:200]))
     if len(new_sigs) > 3:
         print('  (+%d further violation classes not minimised)'
               % (len(new_sigs) - 3))
